@@ -23,10 +23,13 @@ from mc.checks.c10 import consume_flat, consume_grouped
 LEVEL = "fault_enumeration"
 STRUCT = bytes([0x0A, 0x12, 0x1A, 0x22, 0x2A, 0x32, 0x4A, 0x52, 0x5A, 0x7A,
                 0x00, 0x01, 0x02, 0x08, 0x7F, 0x80, 0xFF])
-TIME_BUDGET = 5.0
+TIME_BUDGET = 10.0       # CPU seconds per case (ITIMER_PROF: independent of machine load)
 RSS_BUDGET_KB = 24 * 1024
-CASE_WALL_LIMIT = 30.0  # parent-side: a single case may never hold a worker longer than this
+CASE_WALL_LIMIT = 90.0   # parent-side wall clock: a single case may never hold a worker longer
 AS_LIMIT = 6 * 2**30
+
+
+MAX_GROWN = 0
 
 
 class CaseTimeout(BaseException):
@@ -59,19 +62,22 @@ def parse_all(data: bytes, thorough: bool) -> dict:
 def run_one(data: bytes, thorough: bool):
     """-> (violation kind | None, detail, outcomes)."""
     before = resource.getrusage(resource.RUSAGE_SELF).ru_maxrss
-    t0 = time.perf_counter()
-    signal.setitimer(signal.ITIMER_REAL, TIME_BUDGET)
+    t0 = time.process_time()
+    signal.setitimer(signal.ITIMER_PROF, TIME_BUDGET)
     try:
         outcomes = parse_all(data, thorough)
     except CaseTimeout:
-        return "hang", f"no result within {TIME_BUDGET}s", {}
+        return "hang", f"no result within {TIME_BUDGET}s of CPU time", {}
     except BaseException as e:  # noqa: BLE001
         return "fatal", f"non-ordinary exception {type(e).__name__}: {e}", {}
     finally:
-        signal.setitimer(signal.ITIMER_REAL, 0)
-    dt = time.perf_counter() - t0
+        signal.setitimer(signal.ITIMER_PROF, 0)
+    dt = time.process_time() - t0
     grown = resource.getrusage(resource.RUSAGE_SELF).ru_maxrss - before
-    if grown > RSS_BUDGET_KB:
+    global MAX_GROWN
+    MAX_GROWN = max(MAX_GROWN, grown)
+    # the input itself is held a few times (source copy, read buffer, protobuf copy)
+    if grown > RSS_BUDGET_KB + 10 * len(data) // 1024:
         return "memory", f"peak RSS grew by {grown // 1024} MiB", outcomes
     if dt > TIME_BUDGET:
         return "slow", f"took {dt:.1f}s", outcomes
@@ -194,7 +200,7 @@ def family_e3():
 # ------------------------------------------------------------------ workers
 def shard(job) -> dict:
     fam, args, thorough, progress = job
-    signal.signal(signal.SIGALRM, _alarm)
+    signal.signal(signal.SIGPROF, _alarm)
     resource.setrlimit(resource.RLIMIT_AS, (AS_LIMIT, AS_LIMIT))  # protect the machine
     for _, seed in seeds()[:2]:
         parse_all(seed, thorough)  # warm-up: lazy imports and caches are not the case's memory
@@ -238,7 +244,7 @@ def shard(job) -> dict:
         if slow_cases >= 3:
             acc.extra["aborted"] = True  # every further case would burn the time budget
             break
-    acc.extra.update({"hist": hist, "worst_ms": worst})
+    acc.extra.update({"hist": hist, "worst_ms": worst, "max_rss_growth_kb": MAX_GROWN})
     acc.sample({"family": fam, "example": (data[:24].hex() if acc.evals else "")}, cap=1)
     return acc.out()
 
@@ -321,7 +327,8 @@ def run(ctx) -> None:
         evaluations=merged["evals"],
         distinct_nontrivial=merged["nontrivial"],
         outcome_histogram=hist,
-        worst_case_ms=max((e.get("worst_ms", 0) for e in merged["extras"]), default=0),
+        worst_case_cpu_ms=max((e.get("worst_ms", 0) for e in merged["extras"]), default=0),
+        max_rss_growth_kb=max((e.get("max_rss_growth_kb", 0) for e in merged["extras"]), default=0),
         exhaustive=not ctx.coverage.get("aborted_after_hang", False)
         and not any(e.get("aborted") for e in merged["extras"]),
         samples=merged["samples"] or [{"note": "aborted"}],
@@ -334,7 +341,7 @@ def run(ctx) -> None:
             "2^31-1/2^33/2^62, tables 4097/2^32-1, entry ids up to 2^32-1, nesting depth 1..1000, "
             "10^5 continuation bytes, 10^4 empty frames, options rows everywhere, 2000 frames); "
             "entry points: flat+grouped of both integrations from BytesIO and a non-seekable raw "
-            "source (+ parse-to-graph and Graph.parse in thorough); per-case 5 s interval-timer "
+            "source (+ parse-to-graph and Graph.parse in thorough); per-case 10 s CPU-time interval-timer "
             "watchdog, peak-RSS growth < 24 MiB after warm-up, parent-side worker watchdog; non-trivial = at "
             "least one entry point raised"
         ),
@@ -347,6 +354,6 @@ def replay(case: dict) -> list:
     DR.ensure_rdflib_plugin()
     if not case.get("data"):
         return []
-    signal.signal(signal.SIGALRM, _alarm)
+    signal.signal(signal.SIGPROF, _alarm)
     kind, detail, _ = run_one(bytes.fromhex(case["data"]), case.get("thorough", False))
     return [f"{kind}: {detail}"] if kind else []
